@@ -93,6 +93,19 @@ FIRST = {  # outcome of the first run, before any strengthening, and what was st
  "C19/m11": ("missed", "cli stream: OCI specs with members the tool's runtime-spec version does not know, a vendor extension, a repeated member"),
  "C20/m11": ("missed (written against the tree before fix 86b9bb3; rebased by hand)", "reconf stream: history steps that make the watcher's event queue overflow, before reconfigurations"),
  "C20/m12": ("missed", "reconf stream: after every history a Spec file of a final directory is rewritten in place"),
+ # round 7 (m13, m14; ten properties)
+ "C03/m14": ("missed", "apply stream: the same hook twice in one edit list, hooks the OCI spec already holds"),
+ "C06/m14": ("missed", "version stream: null entries before and between the real ones, in devices and at Spec level"),
+ "C09/m14": ("missed", "codec stream: names whose extension is a case variant of a Spec extension must be loaded by the cache of the directory"),
+ "C14/m13": ("missed", "cache stream injections: requests for conventional names no Spec defines (`=all`, `=*`, `=0`, `=none`) are misses and leave the listings alone"),
+ "C14/m14": ("missed", "purity stream: container paths that are legal but not in clean form (trailing slash, `//`, `/./`, `/../`)"),
+ "C16/m13": ("missed", "names stream: the name to be written exists as a symbolic or hard link to a file kept elsewhere - that file must stay as it is"),
+ "C17/m13": ("missed", "schema stream: members the schema does not mention holding numbers beyond float64 (401-digit integers)"),
+ "C17/m14": ("missed", "schema stream: documents beyond 1 MiB (valid, and with a defect) through every entry point"),
+ "C18/m13": ("missed", "schema stream: the library's own JSON/YAML text of typed Specs with DEL, C1 controls and U+FFFE through the byte entry point"),
+ "C18/m14": ("reported without a failing input (factgen F8: a regex pattern the schema model does not have)", "schema stream: annotation keys in every spelling the library takes; check: clauses that compare two observations of the real code stay failing inputs when a fact extractor fails"),
+ "C19/m13": ("missed", "cli stream: strings that look like printf verbs in the OCI spec"),
+ "C19/m14": ("missed", "cli stream: documents given to the validate tool through symbolic links"),
 }
 rows = []
 for d in sorted(glob.glob("/verif/seeded/C*/m*")):
